@@ -456,17 +456,18 @@ func (c *fakeClient) Do(ctx context.Context, q ch.Query) error {
 	}
 	c.b.inflight[w] = true
 	if c.b.soak != nil {
+		// every random choice is drawn before the lock is released: the end of the soak sets c.b.soak to nil
 		delay := time.Duration(c.b.soak.Intn(300)) * time.Microsecond
 		ok := c.b.soak.Intn(4) != 0
+		var et int
+		if !ok {
+			et = c.b.soak.Intn(len(errTexts))
+		}
 		c.b.mu.Unlock()
 		time.Sleep(delay)
 		c.b.mu.Lock()
 		c.b.inflight[w] = false
 		c.b.events = append(c.b.events, Ev{T: "done", S: w, Ok: ok})
-		var et int
-		if !ok {
-			et = c.b.soak.Intn(len(errTexts))
-		}
 		c.b.mu.Unlock()
 		if ok {
 			return nil
